@@ -85,8 +85,6 @@ pub fn any_ty(depth: u32) -> BoxedStrategy<Ty> {
         3 => proptest::collection::vec(inner.clone(), 1..=8).prop_map(Ty::Tuple),
         3 => inner.clone().prop_map(|t| Ty::Vec(arc(t))),
         2 => (inner.clone(), select(ARRAY_LENS.to_vec())).prop_map(|(t, n)| Ty::Array(arc(t), n)),
-        // arrays around the lengths at which the count needs a second var-int byte (zig-zag: 64) and beyond one byte
-        1 => (select(vec![Ty::U16, Ty::Bool, Ty::I8, Ty::Str, Ty::Option(arc(Ty::U8)), Ty::U64]), select(vec![63usize, 64, 65, 127, 128])).prop_map(|(t, n)| Ty::Array(arc(t), n)),
         1 => select(BYTE_ARRAY_LENS.to_vec()).prop_map(|n| Ty::Array(arc(Ty::U8), n)),
         1 => key.clone().prop_map(|t| Ty::LinkedList(arc(t))),
         1 => inner.clone().prop_map(|t| Ty::LinkedList(arc(t))),
@@ -542,6 +540,8 @@ pub fn rooted_tys(depth: u32) -> Vec<(String, BoxedStrategy<Ty>)> {
     for n in ARRAY_LENS {
         out.push((format!("[T;{n}]"), inner.clone().prop_map(move |t| Ty::Array(arc(t), n)).boxed()));
     }
+    // arrays around the lengths at which the count needs a second var-int byte (zig-zag: 64) and beyond one byte: only
+    // as roots (nested under other arrays they multiply into millions of elements)
     for n in [63usize, 64, 65, 127, 128] {
         out.push((format!("[T;{n}]"), select(vec![Ty::U16, Ty::Bool, Ty::I8, Ty::Str, Ty::Option(arc(Ty::U8)), Ty::U64]).prop_map(move |t| Ty::Array(arc(t), n)).boxed()));
     }
